@@ -86,13 +86,31 @@ psRes_t psVerifySig(psPool_t *pool,
         else
 #  endif /* USE_PKCS1_PSS */
         {
+            /* The RSA public-key operation works in place on its input.
+               'sig' belongs to the caller (it is const here): decrypt a copy,
+               so that the same signature can be verified again (next trusted
+               issuer in the list, re-validation of a parsed certificate). */
+            unsigned char *sigCopy;
+
+            if (sig == NULL || sigLen == 0)
+            {
+                rc = PS_ARG_FAIL;
+                goto out;
+            }
+            sigCopy = psMalloc(pool, sigLen);
+            if (sigCopy == NULL)
+            {
+                rc = PS_MEM_FAIL;
+                goto out;
+            }
+            Memcpy(sigCopy, sig, sigLen);
 
             if (opts && opts->msgIsDigestInfo)
             {
                 /* RSA PKCS 1.5 verification of TLS signed elements. */
                 rc = pubRsaDecryptSignedElementExt(pool,
                         &key->key.rsa,
-                        (unsigned char *) sig,
+                        sigCopy,
                         sigLen,
                         out,
                         msgInLen,
@@ -103,7 +121,6 @@ psRes_t psVerifySig(psPool_t *pool,
                     psTraceIntCrypto("pubRsaDecryptSignedElementExt failed: %d\n",
                             rc);
                     rc = PS_FAILURE;
-                    goto out;
                 }
             }
             else
@@ -111,7 +128,7 @@ psRes_t psVerifySig(psPool_t *pool,
                 /* Standard RSA PKCS #1.5 verification. */
                 rc = psRsaDecryptPub(pool,
                         &key->key.rsa,
-                        (unsigned char *) sig,
+                        sigCopy,
                         sigLen,
                         out,
                         msgInLen,
@@ -120,9 +137,13 @@ psRes_t psVerifySig(psPool_t *pool,
                 {
                     psTraceIntCrypto("pubRsaDecryptPub failed: %d\n", rc);
                     rc = PS_FAILURE;
-                    goto out;
                 }
 
+            }
+            psFree(sigCopy, pool);
+            if (rc < 0)
+            {
+                goto out;
             }
             if (memcmpct(msgIn, out, msgInLen) != 0)
             {
